@@ -1,32 +1,15 @@
-"""Per-property configuration of the checks (sizes, rules, trusted base notes)."""
+"""Per-property configuration of the checks: one file per property in lib/props.d/Cxx.py,
+each defining CONFIG = dict(...).  Keys: coqfiles, n_quick, n_thorough, workers_quick,
+workers_thorough, rule, modelled."""
+import glob, os, runpy
 
 COMMON_TB = [
     "Coq 8.16.1 kernel (coqc, full .vo build; vm_compute used in Examples/finite sweeps; no native_compute)",
     "extraction: ExtrOcamlBasic only (bool/option/list/prod/unit/sumbool to OCaml types), no Extract Constant/Inductive of our own; OCaml 4.13.1",
-    "ocaml/driver.ml (sx parser/printer, dispatch), harness/*.go (generators, simulated collaborators, canonicalisation), bin/check",
+    "ocaml/driver.ml (sx parser/printer, dispatch), harness/*.go (generators, simulated collaborators, canonicalisation), bin/check, tools/genconsts (constant translator)",
     "correspondence is differential testing of the extracted model against the implementation on the generated cases of this run",
 ]
 
-PROPS = {
-    "C12": dict(
-        coqfiles=["Props/C12.v"],
-        n_quick=1600, n_thorough=100000, workers_quick=8,
-        rule="(a) selector cases: pool of 3-10 shards (SHA-256 key hashes computed by Go, weights incl. 1, 2^31, 2^32-1), base map + 3 random permutations + every single removal + 2 additions, "
-             "8 (quick) / 40 (thorough) hashes incl. 0,1,2^k,2^k-1,2^64-1; (b) blob-access cases: 1-6 shards, 2-11 digests (35% share leading hash bytes under other instance names), "
-             "3-10 Get/Put/GetFromComposite/FindMissing with backend faults; non-trivial = at least 2 shards; distinct = distinct input",
-        modelled=["SHA-256 of the shard key is computed by the harness (same formula as hashServer) and handed to the model",
-                  "errgroup: which failing shard's error is returned first is unspecified (agreement on the named shard is membership)",
-                  "digest.Set ordering is canonicalised by the harness (sorted digest identities); the set algebra itself is C20"],
-    ),
-    "C18": dict(
-        coqfiles=["Props/C18.v"],
-        n_quick=4000, n_thorough=200000,
-        rule="random authorizer trees (depth<=3 quick, <=4 thorough, 0-4 members per 'any', verdicts allow/deny/13/14/16 per name) x one operation; "
-             "non-trivial = tree of the operation has depth>=1 (a real 'any' combinator) ; distinct = distinct input",
-        trivial_prefixes=[],
-
-        modelled=["leaf authorizers answer each instance name independently of the batch (oracle table)",
-                  "Go map iteration order in FindMissing: any order of distinct names (agreement on the returned code is membership)",
-                  "error messages are not compared, only gRPC codes"],
-    ),
-}
+PROPS = {}
+for _f in sorted(glob.glob(os.path.join(os.path.dirname(os.path.abspath(__file__)), "props.d", "C*.py"))):
+    PROPS[os.path.basename(_f)[:-3]] = runpy.run_path(_f)["CONFIG"]
